@@ -45,6 +45,11 @@ CHECKS["C06"] = dict(engine="codec", technique="property-based testing: round-tr
    note="Trusted: enr crate for record validity. Leniencies outside the statement's reject list are counted (tolerated_leniency), not reported.",
    ref="7.1 / C06")
 
+CHECKS["C13"] = dict(engine="wire", technique="stateful property-based testing over generated network/attacker schedules (real handlers on a virtual wire, paused clock), equation checked after every step",
+   text="Exploration: thousands of generated schedules per run over 2..4 real handlers with the harness as network, clock, applications and attacker; after every step the exemption map of every handler must equal (active requests + outstanding challenges) per address, and be empty after the drain. Found two leaks on the pinned tree (second WHOAREYOU; handshake failing after its challenge was taken), both fixed.",
+   note="Handler internals are read through a guarded read-only probe; sockets are replaced by channels feeding the real receive path; tokio virtual time.",
+   ref="7.5 / C13")
+
 NOT_YET = {}
 
 def main():
@@ -81,6 +86,7 @@ def main():
             {"name": "query", "path": "harness/src/engines/query.rs", "serves_properties": ["C09", "C10"], "kind_free_text": "proptest event histories over the real query state machines and QueryPool"},
             {"name": "codec", "path": "harness/src/props/c05.rs, c06.rs, harness/src/refmodel/", "serves_properties": ["C05", "C06"], "kind_free_text": "proptest structured + mutation + byte generators vs. reference codecs"},
             {"name": "filter", "path": "harness/src/props/c18.rs", "serves_properties": ["C18"], "kind_free_text": "proptest arrival sequences over the real Limiter / Filter"},
+            {"name": "wire", "path": "harness/src/engines/wire.rs, wire_interp.rs", "serves_properties": ["C01", "C02", "C03", "C04", "C13", "C15", "C19"], "kind_free_text": "real Handlers on an in-memory wire inside a paused single-threaded tokio runtime; proptest op schedules"},
             {"name": "table", "path": "harness/src/engines/table.rs", "serves_properties": ["C07", "C08", "C16"], "kind_free_text": "proptest op histories over the real KBucketsTable"},
         ],
         "checks": checks,
